@@ -71,7 +71,7 @@ def generate(run_seed, index, tier):
     fault_rate = srng.weighted(cfg_r, [(0.0, 5), (0.15, 3), (0.4, 2)])
     fault_kinds = [k for k in ('interrupt', 'alloc_fail') if cfg_r.random() < 0.7] or ['interrupt']
     p_pristine = srng.weighted(cfg_r, [(0.0, 6), (0.5, 3), (1.0, 1)]) if not thorough else srng.weighted(cfg_r, [(0.0, 3), (0.5, 4), (1.0, 3)])
-    heavy_frac = 0.06 if not thorough else 0.1
+    heavy_frac = 0.11 if not thorough else 0.12
     strat = index < 3 * len(NAMES)
     if strat:
         names = [NAMES[index % len(NAMES)]]
@@ -282,6 +282,9 @@ class Sim:
                     raise Violation('unexpected_exception', api, f'{type(ex).__name__}: {ex} args={spec["args"]} seed={spec["seed"]}')
                 res, fired, exc = None, True, ex
             self.log.add('fault', kind, kk, npts, bool(fired), str(self.inj.fired_at))
+            if self.inj.fired_at is not None:
+                self.cover.setdefault('fault_sites', set()).add(f'{self.inj.fired_at[0]}:{self.inj.fired_at[1]}')
+            self.stats['max.injection_points_in_one_op'] = max(self.stats.get('max.injection_points_in_one_op', 0), int(npts))
             if fired:
                 self.bump(f'fault.{kind}.fired')
                 self.bump('probe.third_party_state_restored', seams.third_party_state_restore())
